@@ -40,7 +40,7 @@ def run(tier):
     g = tlc("GenNames", "GenNames.cfg", cwd=sd, workers=NPROC)
     tlc_must_pass(g, "GenNames")
     gen = printed_json(g, "CASE")
-    if len(gen) != 5 * 9 * 3 * 4 * 7 * 5:
+    if len(gen) != 7 * 9 * 3 * 4 * 7 * 5:
         raise Broken("GenNames produced %d cases" % len(gen))
     gen.sort(key=lambda c: json.dumps(c, sort_keys=True))
     rnd = random.Random(seed())
